@@ -528,7 +528,7 @@ def sections(tier):
             ("log", (12, 6, 5), ((6, 6), (6,), (5,)), 1, 2), ("log", (12, 6, 5), ((2,) * 6, (6,), (5,)), 1, 0), ("log", (12, 3, 5), ((6, 6), (3,), (5,)), 1, 0), ("log", (16, 4, 4), ((8, 8), (4,), (4,)), 2, 0)]
     if not q:
         cfgs += [("log", (8, 8, 4), ((4, 4), (4, 4), (4,)), 1, 1), ("dog", (12, 6, 5), ((5, 7), (6,), (5,)), 1, 1), ("log", (12, 6, 5), ((3, 3, 3, 3), (6,), (5,)), 1, 1),
-                 ("dog", (16, 4, 4), ((8, 8), (4,), (4,)), 2, 0), ("log", (6, 6, 6), ((3, 3), (3, 3), (3, 3)), 1, 0), ("log", (2, 12, 5), ((2,), (6, 6), (5,)), 1, 1)]
+                 ("dog", (16, 4, 4), ((8, 8), (4,), (4,)), 2, 0), ("log", (6, 6, 6), ((3, 3), (3, 3), (3, 3)), 1, 0), ("log", (3, 12, 5), ((3,), (6, 6), (5,)), 1, 2)]
     secs.append(("template-(4,2,6)-K3", "checks.c20", "sec_template", {"shape": (4, 2, 6), "K": 3}))
     secs.append(("tm-chunks-(4,2,6)", "checks.c20", "sec_tm_chunks", {"shape": (4, 2, 6), "N": (12, 6, 8), "chunks": ((6, 6), (6,), (8,))}))
     if not q:
